@@ -676,7 +676,8 @@ def main():
         sigmas = [sig[(t.name, tuple(sorted(w.items())))] for w in t.tuples]
         groups = [("all", t.tuples, sigmas)]
         if not ck.quick:
-            groups += [("one%d" % i, [w], [s]) for i, (w, s) in enumerate(zip(t.tuples, sigmas))]
+            step = 2 if len(t.tuples) > 16 else 1          # the two-parameter templates: every second tuple in isolation
+            groups += [("one%d" % i, [w], [s]) for i, (w, s) in enumerate(zip(t.tuples, sigmas)) if i % step == 0]
         for gi, (gname, tup, sgs) in enumerate(groups):
             # shared programs in both placements; isolated instantiations alternate between the placements
             for imported in ((False, True) if gname == "all" else ((gi % 2 == 0),)):
